@@ -92,7 +92,10 @@ def expr_cases(draw):
                                  "a &amp; b\n"]))
     if lead:
         nodes.insert(0, ["raw", lead])
-    return {"nodes": nodes, "text": text, "alt": alt, "planted": bool(slots)}
+    return {"nodes": nodes, "text": text, "alt": alt, "planted": bool(slots),
+            # line-ending style the template is written with (positions are
+            # the same: a CR LF pair is one line break)
+            "eol": draw(st.sampled_from(["\n", "\n", "\r\n", "\r"]))}
 
 
 class ExprErrors(Part):
@@ -145,7 +148,7 @@ class ExprErrors(Part):
         out, src, true_off = self._site(case)
         detail = {"source": src, "planted": case["text"],
                   "true_offset": true_off}
-        o = run(PageTemplate, src)
+        o = run(PageTemplate, src.replace("\n", case.get("eol", "\n")))
         if o.ok:
             return Mismatch("expr:accepted", detail)
         if not isinstance(o.exc, TemplateError):
@@ -265,7 +268,9 @@ class StmtErrors(Part):
                     "kind": draw(st.sampled_from(sorted(SNIPPETS))),
                     "pos": draw(st.integers(0, 3)),
                     "lead": draw(st.sampled_from(["", "\n", "é日本\n  ",
-                                                  "x &amp; y "]))}
+                                                  "x &amp; y "])),
+                    "eol": draw(st.sampled_from(["\n", "\n", "\r\n",
+                                                 "\r"]))}
         return c()
 
     def build(self, case):
@@ -302,7 +307,8 @@ class StmtErrors(Part):
                   "snippet_offset": soff}
         cfg = SNIPPETS[case["kind"]][1] if isinstance(
             SNIPPETS[case["kind"]], tuple) else {}
-        o = run(PageTemplate, src, **cfg)
+        o = run(PageTemplate, src.replace("\n", case.get("eol", "\n")),
+                **cfg)
         if o.ok:
             return Mismatch("stmt:accepted (%s)" % case["kind"], detail)
         if not isinstance(o.exc, TemplateError):
